@@ -52,7 +52,8 @@ def case(draw):
     wild = draw(st.booleans())
     desc = draw(e2e.structure(max_chains=3, nmax=5, wild=wild, contact=True, hyd=hyd,
                               missing=draw(st.integers(0, 2)) == 0 and mode not in (["--assign-only"], ["--clean"])))  # fmt: skip
-    return dict(part="e2e", desc=desc, ff=draw(st.sampled_from(strat.FFS)), opts=list(mode), wild=wild)
+    ff = draw(st.sampled_from(strat.FFS))
+    return dict(part="e2e", desc=desc, ff=ff, opts=list(mode) + e2e.neutral_opts(draw, ff, mode), wild=wild)
 
 
 RINGS = {
@@ -72,7 +73,7 @@ def check(case):
     del CALLS[:]
     s, r = e2e.run_case(desc, ff, opts)
     ncalls = len(CALLS)
-    mode = " ".join(opts) or "default"
+    mode = " ".join(o for o in opts if not o.startswith("--neutral")) or "default"
     res.label(f"mode={mode}", "wild" if case.get("wild") else "wells")
     if not r.ok:
         res.label("run-failed")
